@@ -168,6 +168,117 @@ theorem member_standalone (cfg : MgrCfg) (tf : Option String) (init : List (Cand
   obtain ⟨hi, m, h1, h2, h3, h4, h5, h6⟩ := inv.readings (ht ▸ hok)
   exact ⟨hi, m, h1, h2.trans ht, h3, h4, h5, fun k hk => h6 k (ht ▸ hk)⟩
 
+/-! ### members given as configuration dicts (`Hexital(indicators=[{"indicator": "EMA", …}, …])`)
+
+`Settings.IndCfg` = the public dataclass fields of an indicator object after `__post_init__`,
+`IndCfg.settings` = its `settings` property (`Indicator.settings` / `Amorph.settings`),
+`Settings.build` = `Hexital._build_indicator` + `indicator_class(**kwargs)` + `__post_init__`,
+`IndCfg.toInd` / `IndCfg.mgrCfg` = the tree, generated name and `CandleManager` configuration the rest of
+the model starts from. -/
+
+section Dicts
+open Settings
+
+/-- the `Member` a `Hexital` registers for an indicator object: its tree (with the generated name), its own
+timeframe as written (upper-cased by `__post_init__`) and in seconds (`Driver.parseMember` builds the same
+record from protocol tokens) -/
+def memberOf (c : IndCfg F) (mulStr : String) : PyM (Member F) := do
+  let m ← c.mgrCfg
+  return { tree := c.toInd mulStr, tfName := c.timeframe, tfSecs := m.tf }
+
+/-- **`settings` determines the object.**  For every indicator object `c` in the domain `Valid`, the member
+built by `Hexital._build_indicator` from the dict `c.settings` is `c` itself: same class, same parameters,
+same `fullname_override / name_suffix / round_value / timeframe / timeframe_fill / candles_lifespan /
+candlestick_type`.  No numeric hypothesis, every float carrier. -/
+theorem settings_roundtrip (c : IndCfg F) (h : c.Valid) : build c.settings = .ok c :=
+  build_settings c h
+
+/-- … hence the same tree: same kind and parameters, same sub-indicator / managed children, same generated
+name (whatever `str(multiplier)` prints: `mulStr`), same rounding -/
+theorem settings_same_tree (c : IndCfg F) (h : c.Valid) (mulStr : String) :
+    (build c.settings).map (fun c' => c'.toInd mulStr) = .ok (c.toInd mulStr) :=
+  build_settings_toInd c h mulStr
+
+/-- … the same `CandleManager` configuration (timeframe in seconds, fill, Heikin-Ashi, lifespan) – including
+the case where the timeframe's digits do not parse: then both sides raise the same error -/
+theorem settings_same_manager (c : IndCfg F) (h : c.Valid) :
+    (build c.settings >>= fun c' => c'.mgrCfg) = c.mgrCfg :=
+  build_settings_mgrCfg c h
+
+/-- … and therefore the same registered `Member`: everything `member_standalone` (and `members_FULL`) say about
+a member holds verbatim for the member given as the dict obtained from that indicator's `settings` -/
+theorem settings_same_member (c : IndCfg F) (h : c.Valid) (mulStr : String) :
+    (build c.settings >>= fun c' => memberOf c' mulStr) = memberOf c mulStr := by
+  rw [build_settings c h]; rfl
+
+/-- **The dict form IS the keyword constructor** (any dict, not only `settings`): a dict whose "indicator"
+entry names a class of `INDICATOR_MAP` other than `Amorph` is built by calling that class with the remaining
+entries as keyword arguments (unknown keyword → `TypeError`, binding with the class defaults,
+`_validate_fields`, `__post_init__`) – `construct pc` is the same function a direct `EMA(period=…)` call runs. -/
+theorem dict_is_constructor (d : SDict F) (name : String) (pc : PyClass F)
+    (hname : dlookup "indicator" d = some (.str name)) (hne : name ≠ "") (hna : name ≠ "Amorph")
+    (hmap : indicatorMap name = some pc) :
+    build d = construct pc (derase "indicator" d) := by
+  have ht : (SVal.str name : SVal F).truthy = true := by simp [SVal.truthy, hne]
+  simp only [build, getTruthy, hname, Option.filter, ht, if_true, hna, if_false, hmap]
+
+/-- … and a dict without a (truthy) "indicator" entry whose "analysis" entry names a function of
+`PATTERN_MAP | MOVEMENT_MAP` is built by `Amorph(analysis=fn, **rest)` -/
+theorem dict_is_amorph (d : SDict F) (name : String) (fn : AnaFn)
+    (hind : getTruthy d "indicator" = none) (hname : dlookup "analysis" d = some (.str name)) (hne : name ≠ "")
+    (hmap : AnaFn.ofMapKey name = some fn) :
+    build d = constructAmorph fn (derase "analysis" d) := by
+  have ht : (SVal.str name : SVal F).truthy = true := by simp [SVal.truthy, hne]
+  simp only [build, hind]
+  simp only [getTruthy, hname, Option.filter, ht, if_true, hmap]
+
+/-- a dict with neither "indicator" nor "analysis": `InvalidAnalysis` -/
+theorem dict_missing_key (d : SDict F) (h1 : dlookup "indicator" d = none) (h2 : dlookup "analysis" d = none) :
+    build d = .error .invalidConfig :=
+  build_missing_key d h1 h2
+
+/-- … also when the keys are present but falsy (`if indicator.get("indicator")`: `None`, `""`, `0`, `{}`) -/
+theorem dict_falsy_key (d : SDict F) (h1 : getTruthy d "indicator" = none) (h2 : getTruthy d "analysis" = none) :
+    build d = .error .invalidConfig :=
+  build_falsy_key d h1 h2
+
+/-- a keyword that is neither an `init` field of `Indicator` nor a field of the named class: `TypeError`
+(every class reached through "indicator"; an `Amorph` instead turns unknown keywords into analysis
+arguments – see the `example`s at the end of `HexProofs/Facade/Settings.lean`) -/
+theorem dict_unknown_keyword (d : SDict F) (name : String) (pc : PyClass F)
+    (hname : dlookup "indicator" d = some (.str name)) (hne : name ≠ "") (hna : name ≠ "Amorph")
+    (hmap : indicatorMap name = some pc)
+    (k : String) (v : SVal F) (hk : (k, v) ∈ d) (hki : k ≠ "indicator") (hkn : k ∉ initKeys ++ pc.keys) :
+    build d = .error .typeError :=
+  build_unknown_keyword d name pc hname hne hna hmap k v hk hki hkn
+
+/-! What `settings` does NOT determine – the three exclusions from `Valid`, each with its witness (the former
+`Amorph` exclusions – falsy `round_value = 0`, `candles_lifespan = 0`, `name_suffix = ""` – disappeared with
+library repair 1b1f95f and are inside `Valid` now). -/
+
+/-- `Indicator.settings` skips `timeframe_fill` when there is no timeframe: the rebuilt object has the default
+`False` (harmless: without a timeframe the flag is never read) -/
+theorem settings_lose_fill_without_timeframe :
+    let c : IndCfg F := { cls := .sma 10 "close", timeframe_fill := true }
+    ¬ c.Valid ∧ build c.settings = .ok { c with timeframe_fill := false } :=
+  fill_without_timeframe_counterexample
+
+/-- an `Amorph` over a function that is in neither map (`above`, `below`, any user function) names it in its
+settings, and such a dict cannot be built: `InvalidAnalysis` -/
+theorem settings_unmapped_function :
+    let c : IndCfg F := { cls := .amorph .above [("indicator", .str "close"), ("indicator_two", .str "open")] }
+    ¬ c.Valid ∧ build c.settings = .error .invalidConfig :=
+  amorph_unmapped_function_counterexample
+
+/-- a public field holding `None` is not emitted: `Counter(count_value=None)` comes back with the class
+default `True` -/
+theorem settings_lose_counter_none :
+    let c : IndCfg F := { cls := .counter "close" .none }
+    ¬ c.Valid ∧ build c.settings = .ok { c with cls := .counter "close" (.bool true) } :=
+  counter_none_counterexample
+
+end Dicts
+
 /-- **General statement (not proved).**  For every Hexital configuration, member set (any mix of
 timeframes), raw stream and append schedule: each member's manager holds the same candles (OHLCV,
 timestamps, and the readings under the member's names) as a standalone indicator with the same
